@@ -1,3 +1,351 @@
-import Lomond.Model.Core
+/-
+  C15 — keep-alive, timeouts and polling fire when, and only when, they should.
+  Property theorems only (helper lemmas: Proofs/Timers.lean, Proofs/TimerInv.lean,
+  Proofs/PingGrid.lean, Proofs/Lift.lean).
+
+  Time is `Nat` ticks.  The clock advances only inside `selector.wait` (`EnvStep.wait dt _`,
+  model `tick`), which leaves a `.tick now` mark on the trace; `sessionTime s = now − _start_time`
+  is the time since Ready.  Statements about *when* an event happened are statements about the
+  trace: `clockOf`, `readyAt`, `sessOf` (time since the newest Ready after the entries of a trace),
+  `lastPoll` / `lastAlive` (session time of the newest Poll / newest Pong-or-Ready), `pingStamps`
+  (session times of the library's own Ping frames).
+
+  Environment assumption of the upper bounds (explicit hypothesis `EnvBound poll env`): every
+  `selector.wait` lasts at most the poll interval, so consecutive `_regular()` evaluations are at
+  most `poll` apart.
+-/
+import Lomond.Proofs.PingGrid
+
 namespace Lomond.C15
+open Lomond Lomond.Core Lomond.Core.Lift Lomond.Core.Pong Lomond.Core.Timers
+
+/-! ### Poll -/
+
+/-- **Poll begins right after Ready.**  `_on_ready` starts the session clock (session time 0,
+    `ready`); with no Poll yet (`_poll_start = None`) and the application not abandoning the loop
+    at Ready, the `_regular()` that follows the hand-over of Ready yields Poll immediately — the
+    very next event after the application's reaction to Ready — still at session time 0. -/
+theorem poll_first (inTry : Bool) (a : Option Http.Str) (b : Bool) (s s2 : Sys)
+    (hp : s.pollStart = none) (hy : yieldEv (.ready a b) (readyState s) = .ok () s2) :
+    onEvent (.ready a b) s = .ok () (readyState s) ∧ sessionTime (readyState s) = 0 ∧
+    sessionTime s2 = 0 ∧
+    ∃ l, (feedYield inTry (.ready a b) s).state.trace = l ++ .ev .poll :: s2.trace := by
+  obtain ⟨h1, _, h3⟩ := feedYield_ready_poll inTry a b s s2 hp hy
+  refine ⟨rfl, ?_, h1, h3⟩
+  simp [sessionTime, readyState]
+
+/-- **The timer invariant holds at the end of every connection** (any configuration, application
+    and environment script; with `hi` — the upper bounds — under `poll > 0` and the cycle bound).
+    All trace-level theorems below are read off this invariant. -/
+theorem timer_invariant (hi : Bool) (cfg : Cfg) (react : React) (env : List EnvStep)
+    (h : hi = true → 0 < cfg.poll ∧ EnvBound cfg.poll env) :
+    TimerInv hi 1 cfg.poll (runAll cfg react env) :=
+  timerInv_runAll hi cfg react env h
+
+/-- … and it is an invariant of the session loop started in any state that satisfies it -/
+theorem timer_invariant_loop (hi : Bool) (D : Nat) (env : List EnvStep) (s : Sys)
+    (henv : hi = true → EnvBound D env) (h : TimerInv hi 1 D s) :
+    TimerInv hi 1 D (loop env s).state :=
+  rtimer_loop hi D env henv s h
+
+/-- **Polls are never closer together than `poll`.**  In the trace of any connection, a Poll
+    event (`t` = the entries before it) whose predecessor since Ready was at session time `p0`
+    happens at session time `sessOf t ≥ p0 + poll`. -/
+theorem poll_gap_lower (cfg : Cfg) (react : React) (env : List EnvStep) (l t : List Obs)
+    (htr : (runAll cfg react env).trace = l ++ .ev .poll :: t) (p0 : Nat) (hp : lastPoll t = some p0) :
+    p0 + cfg.poll ≤ sessOf t := by
+  have inv := timer_invariant false cfg react env (fun h => by cases h)
+  have g := inv.gaps
+  rw [inv.pollEq, htr] at g
+  exact (g.at p0 hp).1
+
+/-- **Polls are never `2·poll` or more apart** (cycle bound, `poll > 0`): `sessOf t < p0 + 2·poll`;
+    and at the end of every library step, once ready, less than `poll` has passed since the last
+    Poll (so a Poll is never overdue while the connection is up). -/
+theorem poll_gap_upper (cfg : Cfg) (react : React) (env : List EnvStep)
+    (hpoll : 0 < cfg.poll) (henv : EnvBound cfg.poll env) :
+    (∀ (l t : List Obs), (runAll cfg react env).trace = l ++ .ev .poll :: t →
+        ∀ p0, lastPoll t = some p0 → p0 + cfg.poll ≤ sessOf t ∧ sessOf t < p0 + 2 * cfg.poll) ∧
+    ((runAll cfg react env).ready = true → ∀ p0, (runAll cfg react env).pollStart = some p0 →
+        sessOf (runAll cfg react env).trace < p0 + cfg.poll) := by
+  have inv := timer_invariant true cfg react env (fun _ => ⟨hpoll, henv⟩)
+  refine ⟨?_, ?_⟩
+  · intro l t htr p0 hp
+    have g := inv.gaps
+    rw [inv.pollEq, htr] at g
+    exact ⟨(g.at p0 hp).1, (g.at p0 hp).2 rfl⟩
+  · intro hr p0 hp0
+    have := (inv.fresh rfl).2 hr p0 hp0
+    rw [inv.pollEq] at this
+    omega
+
+/-- `_poll_start` is what the trace says: the session time of the newest Poll -/
+theorem poll_start_is_last_poll (cfg : Cfg) (react : React) (env : List EnvStep) (p0 : Nat)
+    (h : lastPoll (runAll cfg react env).trace = some p0) :
+    (runAll cfg react env).pollStart = some p0 ∧ p0 ≤ sessOf (runAll cfg react env).trace :=
+  (timer_invariant false cfg react env (fun h => by cases h)).last p0 h
+
+/-! ### automatic Ping -/
+
+/-- **One evaluation of `_check_auto_ping`.**  It fires iff `ping_rate ≠ 0` and the session time
+    `t` is past `_next_ping`; then `_next_ping` becomes `⌈t/r⌉·r` — the end of the current period,
+    `t ≤ ⌈t/r⌉·r < t + r` — so that it cannot fire again before the session time exceeds that
+    multiple of `r`; a Ping is attempted (and written when the connection is usable); otherwise
+    nothing happens at all. -/
+theorem ping_grid_step (s : Sys) :
+    (pingDue s ↔ s.cfg.pingRate ≠ 0 ∧ sessionTime s > s.nextPing) ∧
+    (pingDue s →
+        checkAutoPing s = (do let _ ← sendFrame Gen.opPing [] none; pure () : M Unit) (pingMark s) ∧
+        (pingMark s).nextPing = ceilDiv (sessionTime s) s.cfg.pingRate * s.cfg.pingRate ∧
+        sessionTime s ≤ (pingMark s).nextPing ∧ (pingMark s).nextPing < sessionTime s + s.cfg.pingRate ∧
+        (∀ s' : Sys, s'.cfg = s.cfg → s'.nextPing = (pingMark s).nextPing →
+            sessionTime s' ≤ (pingMark s).nextPing → ¬ pingDue s') ∧
+        (s.sockOpen = true → s.closing = false → s.closed = false →
+          s.cfg.writeFails s.writeCtr = false →
+          (checkAutoPing s).state.trace = .wr ([137, 128] ++ s.cfg.maskKey s.keyCtr) :: s.trace)) ∧
+    (¬ pingDue s → checkAutoPing s = .ok () s) := by
+  refine ⟨Iff.rfl, ?_, checkAutoPing_quiet s⟩
+  intro hd
+  have hr : 0 < s.cfg.pingRate := Nat.pos_of_ne_zero hd.1
+  refine ⟨checkAutoPing_fires s hd, rfl, le_ceilDiv_mul _ _ hr, ceilDiv_mul_lt _ _ hr, ?_, ?_⟩
+  · intro s' hc hn hle hd'
+    have := hd'.2
+    omega
+  · intro hso hcg hcd hw
+    rw [checkAutoPing_writes s hd hso hcg hcd hw]; rfl
+
+/-- **The grid invariant holds at the end of every connection.** -/
+theorem ping_invariant (cfg : Cfg) (react : React) (env : List EnvStep) :
+    GInv (runAll cfg react env) := ginv_runAll cfg react env
+
+/-- **Never two automatic Pings within one period.**  For any two of the library's own Ping frames
+    in the trace of any connection, at session times `qo` (older) and `qn` (newer): the older
+    one's period ends strictly before the newer one (`⌈qo/r⌉·r < qn`), hence for no `k` do both
+    lie in `((k−1)·r, k·r]`; and `_next_ping` is always a multiple of `r`. -/
+theorem ping_grid (cfg : Cfg) (react : React) (env : List EnvStep) (l1 l2 : List Nat) (qn qo : Nat)
+    (hst : pingStamps (runAll cfg react env).trace = l1 ++ qn :: l2) (ho : qo ∈ l2) :
+    cfg.pingRate ≠ 0 ∧ ceilDiv qo cfg.pingRate * cfg.pingRate < qn ∧
+    (∀ k, ¬ ((k - 1) * cfg.pingRate < qo ∧ qn ≤ k * cfg.pingRate)) ∧
+    ∃ k, (runAll cfg react env).nextPing = k * cfg.pingRate := by
+  have inv := ping_invariant cfg react env
+  have hcfg : (runAll cfg react env).cfg.pingRate = cfg.pingRate := pingRate_runAll cfg react env
+  have g := inv.grid
+  rw [hst, hcfg] at g
+  obtain ⟨h1, h2⟩ := grid_pairwise g ho
+  refine ⟨h1, h2, fun k => grid_not_same_period g ho k, ?_⟩
+  obtain ⟨k, hk⟩ := inv.mult
+  exact ⟨k, by rw [hk, hcfg]⟩
+
+/-- **A Ping is attempted within `poll` after each multiple of `r`** (cycle bound).  `_next_ping`
+    is a multiple `k·r`; if at one `_regular()` the session time has not passed it and at the next
+    one — at most `dt ≤ poll` later — it has, the Ping is due right then, at a session time in
+    `(k·r, k·r + poll]`. -/
+theorem ping_within_poll (s : Sys) (dt : Nat) (hdt : dt ≤ s.cfg.poll) (hr : s.cfg.pingRate ≠ 0)
+    (hbefore : sessionTime s ≤ s.nextPing) (hafter : sessionTime (tick s dt) > s.nextPing) :
+    pingDue (tick s dt) ∧ s.nextPing < sessionTime (tick s dt) ∧
+    sessionTime (tick s dt) ≤ s.nextPing + s.cfg.poll := by
+  have := sessionTime_tick s dt
+  exact ⟨⟨hr, hafter⟩, hafter, by omega⟩
+
+/-- **Never when `ping_rate` is 0.**  `_check_auto_ping` is the identity, and no connection's
+    trace contains a library Ping. -/
+theorem no_ping_when_zero :
+    (∀ s : Sys, s.cfg.pingRate = 0 → checkAutoPing s = .ok () s) ∧
+    (∀ (cfg : Cfg) (react : React) (env : List EnvStep), cfg.pingRate = 0 →
+        pingStamps (runAll cfg react env).trace = []) := by
+  refine ⟨fun s h => checkAutoPing_quiet s (fun hd => hd.1 h), ?_⟩
+  intro cfg react env h
+  have g := (ping_invariant cfg react env).grid
+  rw [pingRate_runAll cfg react env, h] at g
+  exact grid_nil_of_zero g
+
+/-! ### ping timeout -/
+
+/-- **One evaluation of `_check_ping_timeout`.**  It yields Unresponsive and raises
+    `_ForceDisconnect('ping-timeout')` iff `ping_timeout ≠ 0` and more than `ping_timeout` has
+    passed since `_last_pong`; otherwise it does nothing.  (When the application abandons the loop
+    at Unresponsive, that abandonment is what is raised instead.) -/
+theorem unresponsive_iff (s : Sys) :
+    (pingTimeoutDue s ↔ s.cfg.pingTimeout ≠ 0 ∧ sessionTime s - s.lastPong > s.cfg.pingTimeout) ∧
+    ((∃ x s', checkPingTimeout s = .err x s') ↔ pingTimeoutDue s) ∧
+    (pingTimeoutDue s →
+        (∃ l, (checkPingTimeout s).state.trace = l ++ .ev .unresponsive :: s.trace) ∧
+        ∀ s1, yieldEv .unresponsive s = .ok () s1 →
+          checkPingTimeout s = .err (.forceDisconnect "ping-timeout") s1) ∧
+    (¬ pingTimeoutDue s → checkPingTimeout s = .ok () s) ∧
+    (s.cfg.pingTimeout = 0 → checkPingTimeout s = .ok () s) := by
+  refine ⟨Iff.rfl, ⟨?_, fun h => (checkPingTimeout_due s h).2.2⟩,
+    fun h => ⟨(checkPingTimeout_due s h).1, (checkPingTimeout_due s h).2.1⟩,
+    checkPingTimeout_quiet s, fun h => checkPingTimeout_quiet s (fun hd => hd.1 h)⟩
+  intro ⟨x, s', he⟩
+  apply Classical.byContradiction
+  intro hn
+  rw [checkPingTimeout_quiet s hn] at he
+  cases he
+
+/-- **Noticed within `poll`** (cycle bound).  If the ping timeout was not due at one `_regular()`
+    and is due at the next one, `dt ≤ poll` later, then that happens at a session time in
+    `(last_pong + ping_timeout, last_pong + ping_timeout + poll]`. -/
+theorem unresponsive_within_poll (s : Sys) (dt : Nat) (hdt : dt ≤ s.cfg.poll)
+    (hnot : ¬ pingTimeoutDue s) (hdue : pingTimeoutDue (tick s dt)) :
+    s.lastPong + s.cfg.pingTimeout < sessionTime (tick s dt) ∧
+    sessionTime (tick s dt) ≤ s.lastPong + s.cfg.pingTimeout + s.cfg.poll := by
+  obtain ⟨h0, hgt⟩ := hdue
+  have e1 : (tick s dt).cfg = s.cfg := rfl
+  have e2 : (tick s dt).lastPong = s.lastPong := rfl
+  rw [e1] at h0
+  rw [e1, e2] at hgt
+  have hle : ¬ (sessionTime s - s.lastPong > s.cfg.pingTimeout) := fun h => hnot ⟨h0, h⟩
+  have := sessionTime_tick s dt
+  omega
+
+/-- **`_last_pong` is the last sign of life.**  Ready sets it to 0 (and the session time to 0); a
+    Pong sets it to the current session time; and in every connection it equals what the trace
+    says: the session time of the newest Pong event since Ready, 0 if there is none. -/
+theorem last_pong_is_last_sign_of_life :
+    (∀ (a : Option Http.Str) (b : Bool) (s : Sys),
+        onEvent (.ready a b) s = .ok () (readyState s) ∧ (readyState s).lastPong = 0 ∧
+        sessionTime (readyState s) = 0) ∧
+    (∀ (d : Bytes) (s : Sys), onEvent (.pong d) s = .ok () { s with lastPong := sessionTime s }) ∧
+    (∀ (cfg : Cfg) (react : React) (env : List EnvStep),
+        (runAll cfg react env).lastPong = lastAlive (runAll cfg react env).trace) := by
+  refine ⟨fun a b s => ⟨rfl, rfl, by simp [sessionTime, readyState]⟩, fun d s => rfl, ?_⟩
+  intro cfg react env
+  exact (timer_invariant false cfg react env (fun h => by cases h)).alive
+
+/-- **Unresponsive only when due.**  In the trace of any connection, an Unresponsive event
+    (`t` = the entries before it) happens with `ping_timeout ≠ 0` and more than `ping_timeout`
+    after the newest Pong since Ready (or Ready itself); never when `ping_timeout` is None/0. -/
+theorem unresponsive_only_when_due (cfg : Cfg) (react : React) (env : List EnvStep) (l t : List Obs)
+    (htr : (runAll cfg react env).trace = l ++ .ev .unresponsive :: t) :
+    cfg.pingTimeout ≠ 0 ∧ sessOf t - lastAlive t > cfg.pingTimeout := by
+  have inv := timer_invariant false cfg react env (fun h => by cases h)
+  have u := inv.unresp
+  rw [pingTimeout_runAll cfg react env, htr] at u
+  exact u.at
+
+/-- **Followed by a non-graceful Disconnected.**  A `_ForceDisconnect(kind)` raised by
+    `_regular()` at the top of a loop cycle leaves the loop, and `run()`'s handler closes the
+    socket and yields `Disconnected(kind, graceful=False)` — for the ping timeout
+    `disconnected "ping-timeout" false`, for the close timeout `disconnected "close-timeout" false`. -/
+theorem force_disconnect_ends_run (dt : Nat) (rd : Option RecvOutcome) (rest : List EnvStep)
+    (s s2 : Sys) (k : String) (hc : s.closed = false)
+    (h : regular (tick s dt) = .err (.forceDisconnect k) s2) :
+    runBody (.wait dt rd :: rest) s = (do closeSocket; yieldEv (.disconnected k false) : M Unit) s2 :=
+  runBody_forceDisconnect _ s s2 k (loop_regular_err dt rd rest s s2 _ hc h)
+
+/-! ### close timeout -/
+
+/-- **One evaluation of `_check_close_timeout`, and the window.**  It raises
+    `_ForceDisconnect('close-timeout')` iff `close_timeout ≠ 0`, a Close was sent at session time
+    `ct`, and `t ≥ ct + close_timeout`; never when `close_timeout` is None/0 or no Close was sent.
+    `close()` records `ct` = the session time of the call.  Under the cycle bound, if it was not
+    due at one evaluation and is due at the next (`dt ≤ poll` later), the forced disconnect
+    happens at a session time in `[ct + c, ct + c + poll]`. -/
+theorem close_timeout_window (s : Sys) :
+    (closeTimeoutDue s ↔ s.cfg.closeTimeout ≠ 0 ∧
+        ∃ ct, s.sentCloseTime = some ct ∧ sessionTime s ≥ ct + s.cfg.closeTimeout) ∧
+    (closeTimeoutDue s → checkCloseTimeout s = .err (.forceDisconnect "close-timeout") s) ∧
+    (¬ closeTimeoutDue s → checkCloseTimeout s = .ok () s) ∧
+    (s.cfg.closeTimeout = 0 → checkCloseTimeout s = .ok () s) ∧
+    (s.sentCloseTime = none → checkCloseTimeout s = .ok () s) ∧
+    (∀ dt ct, dt ≤ s.cfg.poll → s.sentCloseTime = some ct → ¬ closeTimeoutDue s →
+        closeTimeoutDue (tick s dt) →
+        ct + s.cfg.closeTimeout ≤ sessionTime (tick s dt) ∧
+        sessionTime (tick s dt) ≤ ct + s.cfg.closeTimeout + s.cfg.poll) := by
+  refine ⟨Iff.rfl, checkCloseTimeout_fires s, checkCloseTimeout_quiet s,
+    fun h => checkCloseTimeout_quiet s (fun hd => hd.1 h),
+    fun h => checkCloseTimeout_quiet s (fun ⟨_, ct, hct, _⟩ => by rw [h] at hct; cases hct), ?_⟩
+  intro dt ct hdt hct hnot hdue
+  obtain ⟨h0, ct', hct', hge⟩ := hdue
+  have e : ct' = ct := by
+    have : (tick s dt).sentCloseTime = s.sentCloseTime := rfl
+    rw [this, hct] at hct'; cases hct'; rfl
+  subst e
+  have hc0 : (tick s dt).cfg = s.cfg := rfl
+  rw [hc0] at hge h0
+  have hlt : sessionTime s < ct' + s.cfg.closeTimeout := by
+    apply Nat.lt_of_not_le
+    intro hle
+    exact hnot ⟨h0, ct', hct, hle⟩
+  have := sessionTime_tick s dt
+  exact ⟨hge, by omega⟩
+
+/-- `close()` on an open websocket records the session time at which the Close was sent -/
+theorem close_records_time (code : Option Nat) (reason : Arg) (s s' : Sys)
+    (h : wsClose code reason s = .ok .ok s') (hcd : s.closed = false) (hcg : s.closing = false) :
+    s'.sentCloseTime = some (sessionTime s) ∧ s'.closing = true :=
+  wsClose_records_time code reason s s' h hcd hcg
+
+/-! ### independence of the timers -/
+
+/-- **A Pong resets only the ping timeout; data resets nothing.**  `_on_event` for a Pong changes
+    `_last_pong` and nothing else; for Text, Binary, Closing, Closed it changes nothing at all; for
+    a Ping (the automatic Pong) no timer field changes. -/
+theorem timers_independent (s : Sys) :
+    (∀ d, onEvent (.pong d) s = .ok () { s with lastPong := sessionTime s }) ∧
+    (∀ t, onEvent (.text t) s = .ok () s) ∧ (∀ d, onEvent (.binary d) s = .ok () s) ∧
+    (∀ c r, onEvent (.closing c r) s = .ok () s) ∧ (∀ c r, onEvent (.closed c r) s = .ok () s) ∧
+    (∀ d s1, onEvent (.ping d) s = .ok () s1 →
+        s1.pollStart = s.pollStart ∧ s1.nextPing = s.nextPing ∧ s1.lastPong = s.lastPong ∧
+        s1.startTime = s.startTime ∧ s1.now = s.now ∧ s1.sentCloseTime = s.sentCloseTime) := by
+  refine ⟨fun d => rfl, fun t => rfl, fun d => rfl, fun c r => rfl, fun c r => rfl, ?_⟩
+  intro d s1 h
+  exact onEvent_ping_timers d s s1 h
+
+/-! ### non-vacuity: concrete numbers -/
+
+/-- a ready connection at session time 0: poll 5, ping rate 10, ping timeout 12, close timeout 3 -/
+def exReady : Sys :=
+  { cfg := { poll := 5, pingRate := 10, pingTimeout := 12, closeTimeout := 3 },
+    react := fun _ => [], env := [], sockOpen := true, selOpen := true, ready := true,
+    startTime := some 0, trace := [.ev (.ready none false)], p := { cont := .hdr2, remPred := 1 } }
+
+-- three silent cycles of 5 ticks: Poll at 5, 10, 15; automatic Ping at 5 and 15 (periods (0,10]
+-- and (10,20]); Unresponsive at 15 > 12
+example : (loop [.wait 5 none, .wait 5 none, .wait 5 none] exReady).state.trace =
+    [.ev .unresponsive, .wr [137, 128, 0, 0, 0, 0], .ev .poll, .tick 15,
+     .ev .poll, .tick 10,
+     .wr [137, 128, 0, 0, 0, 0], .ev .poll, .tick 5, .ev (.ready none false)] := by decide +kernel
+
+example : pingStamps (loop [.wait 5 none, .wait 5 none, .wait 5 none] exReady).state.trace = [15, 5] := by
+  decide +kernel
+
+example : ceilDiv 5 10 * 10 = 10 ∧ ceilDiv 15 10 * 10 = 20 ∧ ceilDiv 10 10 * 10 = 10 := by decide
+
+theorem exReady_timerInv : TimerInv true 1 5 exReady := by
+  refine ⟨rfl, rfl, ?_, rfl, ?_, ?_, ?_, rfl⟩
+  · intro p0 h; cases h
+  · exact (pollGaps_ready _ _ _ _ []).mpr trivial
+  · exact (unrespOK_ready _ _ _ []).mpr trivial
+  · intro _; exact ⟨by decide, fun _ p0 h => by cases h⟩
+
+-- the hypotheses of the invariant theorems are satisfiable on this run
+example : TimerInv true 1 5 (loop [.wait 5 none, .wait 5 none, .wait 5 none] exReady).state :=
+  timer_invariant_loop true 5 _ exReady
+    (by intro _ dt rd h; simp at h; omega) exReady_timerInv
+
+example : GInv exReady := ⟨rfl, rfl, trivial, ⟨0, rfl⟩⟩
+
+-- Ready → Poll at once (poll_first): the application does nothing at Ready
+example : (feedYield true (.ready none false)
+    { exReady with ready := false, startTime := none, trace := [], now := 7 }).state.trace =
+    [.ev .poll, .ev (.ready none false)] := by decide +kernel
+
+-- close timeout: Close sent at 4, timeout 3: not due at 6, due at 11 ∈ [7, 12]
+example : ¬ closeTimeoutDue { exReady with sentCloseTime := some 4, now := 6 } ∧
+    closeTimeoutDue (tick { exReady with sentCloseTime := some 4, now := 6 } 5) := by
+  refine ⟨fun ⟨_, ct, h1, h2⟩ => ?_, ⟨by decide, 4, rfl, by decide⟩⟩
+  cases h1
+  revert h2; decide
+
+-- ping timeout: last Pong at 3, timeout 12: due at 16, not at 15
+example : pingTimeoutDue { exReady with lastPong := 3, now := 16 } ∧
+    ¬ pingTimeoutDue { exReady with lastPong := 3, now := 15 } := by
+  refine ⟨⟨by decide, by decide⟩, fun ⟨_, h⟩ => ?_⟩
+  revert h; decide
+
+-- a Pong at session time 9 moves `_last_pong` there and nothing else
+example : (onEvent (.pong []) { exReady with now := 9 }).state.lastPong = 9 := by decide +kernel
+
 end Lomond.C15
